@@ -169,12 +169,12 @@ class JsonRPC:
         :returns: flask response
         """
 
-        if not flask.request.is_json:
+        if flask.request.mimetype not in pjrpc.common.REQUEST_CONTENT_TYPES:
             raise exceptions.UnsupportedMediaType()
 
         try:
             flask.request.encoding_errors = 'strict'  # type: ignore[attr-defined]
-            request_text = flask.request.get_data(as_text=True)
+            request_text = flask.request.get_data().decode()
         except UnicodeDecodeError as e:
             raise exceptions.BadRequest() from e
 
